@@ -404,6 +404,15 @@ pub fn evaluate_ast(
                 source.clone(),
             )?;
 
+            // The value itself may have bound the name (`x = (x = 5) + x`)
+            if bindings.contains_key(ident) {
+                return Err(RuntimeError::with_span(
+                    format!("{} is already defined, and cannot be reassigned", ident),
+                    expr.span,
+                    source.clone(),
+                ));
+            }
+
             // Set lambda name if assigning a lambda
             if let Value::Lambda(lambda_ptr) = val {
                 let mut borrowed_heap = heap.borrow_mut();
